@@ -100,9 +100,16 @@ fn call_any(slot: &mut Option<Unimock>, m: u32, a: u8) -> String {
                 show_val,
             )
         }
-        16 => {
+        16 | 33 | 34 => {
             let u = slot.take().unwrap();
-            obs(catch_unwind(AssertUnwindSafe(move || u.p_val(a).take())), show_val)
+            obs(
+                catch_unwind(AssertUnwindSafe(move || match m {
+                    16 => u.p_val(a).take(),
+                    33 => u.r_val(a).take(),
+                    _ => u.p_val2(a).take(),
+                })),
+                show_val,
+            )
         }
         17 | 23 | 24 => {
             let rc = Rc::new(slot.take().unwrap());
